@@ -340,6 +340,18 @@ def EFib.scan (F : EFib) : List (Option Int × Option Nat) :=
           | none => []
   | .B => scanBits F F.coords 0 0
 
+/-- `setupSlice(b)` then `nextInSlice()` until None: U and C start at `coordToHandle(b)`,
+    B starts at mask position `b` with the payload handle `countLeft(b)` (set bits before `b`) -/
+def EFib.scanBase (F : EFib) (b : Nat) : List (Option Int × Option Nat) :=
+  match F.fmt with
+  | .U => match F.coordToHandle b with
+          | some h => scanFrom F F.shape h
+          | none => []
+  | .C => match F.coordToHandle b with
+          | some h => scanFrom F F.coords.length h
+          | none => []
+  | .B => scanBits F (F.coords.drop b) b ((F.coords.take b).foldl (· + ·) 0).toNat
+
 /-- `getSize()`; `none` = an `assert` fires (CoordinateList checks one payload per coordinate
     when the rank below is explicit) -/
 def EFib.getSize (F : EFib) : Option Nat :=
@@ -416,6 +428,10 @@ def EFib.elemsSpec (F : EFib) : List (Option Int × Option Int) :=
     (some e.1, match F.next with
                | none => some (F.vals.getD e.2 0)
                | some _ => some ((F.kid0 + e.2 : Nat) : Int)))
+
+/-- a slice from coordinate `b` has to deliver the elements at coordinates `≥ b` -/
+def EFib.elemsSpecFrom (F : EFib) (b : Nat) : List (Option Int × Option Int) :=
+  F.elemsSpec.filter (fun e => match e.1 with | some c => decide ((b : Int) ≤ c) | none => true)
 
 /-- depth-first walk of the encoded tensor through the handle interface: scan the fiber at
     position `idx` of the first rank list; a leaf element yields its value (defaults are not content),
